@@ -21,7 +21,7 @@ import vlib
 
 PKG = "internal/client"
 FILES = ["zz_verif_common_test.go", "zz_verif_c04_test.go"]
-UNIVERSES = ["net", "kinds", "set", "zone"]
+UNIVERSES = ["net", "kinds", "set", "zone", "misc"]
 CHUNK = 4000            # steps per tour segment (bounds the history needed to reproduce)
 _line_re = re.compile(r'^<<"@@([SU])", "(.*)">>$')
 
@@ -35,9 +35,56 @@ _line_re = re.compile(r'^<<"@@([SU])", "(.*)">>$')
 # spellings are part of every segment.
 
 
+# Findings of the audit of the property (known_findings/C04.jsonl).
+#
+# Soft lookups ("alt"): the harness repeats lookups with another legal spelling
+# of the argument; a wrong answer there does not put the registry out of step,
+# so the tour goes on and the disagreement is reported separately.  Each alt
+# kind has a narrow predicate on the record; anything else is unclassified.
+ALT_KEYS = {
+    "nettext": ("find-by-cidr-text-finds-nothing", lambda r: r["got"] == 0 and r["want"] > 0),
+    "cidcase": ("clientid-lookup-is-case-sensitive",
+                lambda r: r["got"] == (r["absent"] if r["call"].startswith("Apply") else 0)),
+    "mapped": ("ipv4-mapped-address-is-a-different-identity", lambda r: r["got"] == 0),
+    "mac8colon": ("eui64-mac-text-looked-up-as-ip",
+                  lambda r: r["variant"]["maclen"] == 8 and r["got"] > 0 and r["got"] != r["want"]),
+}
+# Hard flags: concretisations that change what is REGISTERED or leased, so a
+# defect they expose ends the tour.  While the finding is open they are
+# confined to a few probe segments, and a disagreement there gets the key only
+# if the very same segment agrees with the spec with the flag off (control
+# run); once the finding is marked fixed they are part of every segment and
+# history.
+HARD_FLAGS = {
+    "mapstore": ("ipv4-mapped-address-is-a-different-identity", ("net", "kinds", "set")),
+    "oddlease": ("lease-mac-odd-length-panics", ("misc",)),
+}
+PROBE_SEGMENTS = 4
+
+
+def finding_fixed(key):
+    kf = vlib.known_findings().get(("C04", key))
+    return bool(kf and kf.get("status") == "fixed")
+
+
+def mainstream_flags():
+    return sorted(f for f, (key, _u) in HARD_FLAGS.items() if finding_fixed(key))
+
+
 def classify(rec):
-    """Narrow keys of known findings (none open)."""
+    """Narrow keys of known findings for tour / settings records (the probes and
+    the soft lookups are classified where they are produced)."""
     return None
+
+
+def classify_trace_lookup(q):
+    """Key for a failing lookup of a trace line, or None."""
+    alt = q.get("alt") or ""
+    if alt not in ALT_KEYS:
+        return None
+    if alt in ("nettext", "mapped") and q.get("t") == "find" and q.get("r") != "":
+        return None
+    return ALT_KEYS[alt][0]
 
 
 # ------------------------------------------------------------------ TLC side
@@ -175,10 +222,13 @@ def step_list(c, upto=None):
 
 
 def make_variants(seed, uni):
+    on = mainstream_flags()
+
     def v(i):
         r = random.Random("%d/%s/%d" % (seed, uni, i))
         return {"maclen": [6, 8, 20][i % 3], "v6": i % 4 == 3 or uni == "zone", "seed": r.randrange(1 << 40),
-                "names": r.randrange(3), "global": r.randrange(16), "w": 4, "maccolon8": r.randrange(2) == 1}
+                "names": r.randrange(3), "global": r.randrange(16), "w": 4, "maccolon8": r.randrange(2) == 1,
+                "mapstore": "mapstore" in on, "oddlease": "oddlease" in on}
     return v
 
 
@@ -209,6 +259,7 @@ def run_replay(ctx, graphs, chunks, tag):
     if rc != 0 or not summ:
         raise vlib.Inconclusive("C04 replay harness did not complete:\n" + out[-3000:])
     os.remove(vin)
+    summ[0]["_soft"] = [r for r in rows if r.get("t") == "soft"]
     return [r for r in rows if r.get("t") == "bad"], summ[0]
 
 
@@ -291,7 +342,8 @@ def settings_vectors(ctx):
 # ---------------------------------------------------------------- direction B
 def trace_validate(ctx, env=None, tag="b"):
     tout = ctx.path("c04_trace_%s.ndjson" % tag)
-    rc, out = ctx.go_test(PKG, FILES, "^TestZZVerifC04Trace$", env=dict({"VERIF_OUT": tout}, **(env or {})))
+    rc, out = ctx.go_test(PKG, FILES, "^TestZZVerifC04Trace$", env=dict(
+        {"VERIF_OUT": tout, "VERIF_C04_FLAGS": ",".join(mainstream_flags())}, **(env or {})))
     rows = vlib.read_ndjson(tout)
     if rc != 0 or not rows:
         raise vlib.Inconclusive("C04 trace driver did not complete:\n" + out[-3000:])
@@ -302,7 +354,8 @@ def trace_validate(ctx, env=None, tag="b"):
     verdict = r["vectors"][-1]
     if verdict["n"] != len(rows):
         raise vlib.Inconclusive("trace spec consumed %s of %d lines" % (verdict["n"], len(rows)))
-    return rows, sorted(verdict["bad"]), verdict["skipped"]
+    # bad: pairs [line, lookup index] (index 0 = the reply of the operation)
+    return rows, sorted(tuple(b) for b in verdict["bad"]), verdict["skipped"]
 
 
 def describe_line(rec):
@@ -381,6 +434,82 @@ def run(ctx):
     if flaky:
         raise vlib.Inconclusive("%d disagreement(s) did not reproduce in isolation" % flaky)
 
+    # --- soft lookups (alternative spellings): reproduce from a freshly built state, classify
+    softs = summ["_soft"]
+    soft_counts = summ.get("soft") or {}
+    if softs:
+        minis, who = [], []
+        for i, sb in enumerate(softs):
+            minis.append({"t": "c", "u": sb["u"], "id": len(minis), "variant": sb["variant"], "start": sb["state"], "steps": []})
+            who.append(i)
+        sg = [gmap[u] for u in sorted({sb["u"] for sb in softs})]
+        _, ssumm = run_replay(ctx, sg, minis, "soft_repro")
+        seen = {(r["chunk"], r["alt"], r["what"]) for r in ssumm["_soft"]}
+        for k, sb in enumerate(softs):
+            if (k, sb["alt"], sb["what"]) not in seen:
+                raise vlib.Inconclusive("a soft lookup disagreement did not reproduce: %s" % sb["what"])
+            key, pred = ALT_KEYS.get(sb["alt"], (None, None))
+            if key and not pred(sb):
+                key = None
+            rec = dict(sb)
+            rec["seed"] = ctx.seed
+            rec["chunk_keys"] = {"u": sb["u"], "variant": sb["variant"], "start": list(gmap[sb["u"]].keys[sb["state"]]), "steps": []}
+            ctx.disagreement(key, rec, "%s: lookup under another spelling (%s): %s in state %s" % (
+                sb["u"], sb["alt"], sb["what"], list(gmap[sb["u"]].keys[sb["state"]])))
+
+    # --- probe segments for the hard flags of open findings (see HARD_FLAGS)
+    probe_chunks = []
+    for flag, (key, unis) in sorted(HARD_FLAGS.items()):
+        if finding_fixed(key):
+            continue
+
+        def relevant(c):
+            if c["u"] not in unis or nsteps(c) < 2:
+                return False
+            if flag == "oddlease":
+                a = c["steps"]
+                return any(a[j] == 4 and a[j + 2] == 7 for j in range(0, len(a), 7)) or 7 in gmap[c["u"]].keys[c["start"]][2:]
+            return True
+
+        cand = [c for c in chunks if relevant(c)]
+        rng.shuffle(cand)
+        for c in cand[:PROBE_SEGMENTS]:
+            pc = dict(c)
+            pc["variant"] = dict(c["variant"])
+            pc["variant"][flag] = True
+            if flag == "mapstore":
+                pc["variant"]["v6"] = False
+            pc["id"] = len(probe_chunks)
+            pc["_flag"] = flag
+            probe_chunks.append(pc)
+    probe_hits = 0
+    if probe_chunks:
+        pbads, _ = run_replay(ctx, graphs, [{k: v for k, v in c.items() if k != "_flag"} for c in probe_chunks], "probe")
+        probe_hits = len(pbads)
+        for b in pbads:
+            b["_chunk"] = probe_chunks[b["chunk"]]
+            truncated += nsteps(b["_chunk"]) - (b["step"] + 1)
+        precs = reproduce(ctx, gmap, pbads, "probe_repro") if pbads else []
+        if any(r is None for r in precs):
+            raise vlib.Inconclusive("a probe disagreement did not reproduce in isolation")
+        # control: the same segments with the flag off must agree with the spec
+        ctl = []
+        for i, (b, rec) in enumerate(zip(pbads, precs)):
+            c = dict(rec["_chunk_input"])
+            c["variant"] = dict(c["variant"])
+            c["variant"][b["_chunk"]["_flag"]] = False
+            c["id"] = i
+            ctl.append(c)
+        failed = set()
+        if ctl:
+            cbads, _ = run_replay(ctx, [gmap[u] for u in sorted({c["u"] for c in ctl})], ctl, "probe_control")
+            failed = {x["chunk"] for x in cbads}
+        for i, (b, rec) in enumerate(zip(pbads, precs)):
+            flag = b["_chunk"]["_flag"]
+            rec.pop("_chunk_input")
+            ctx.disagreement(None if i in failed else HARD_FLAGS[flag][0], rec, "%s (%s): %s after %s" % (
+                b["u"], flag, rec["what"], rec["concrete"]))
+
     # --- settings decision table (pure vectors)
     svecs, sbad = settings_vectors(ctx)
     for b in sbad[:8]:
@@ -390,19 +519,42 @@ def run(ctx):
     # --- direction B
     trows, tbad, tskipped = trace_validate(ctx)
     ntraces = sum(1 for r in trows if r["op"] == "reset")
-    for i in tbad[:8]:
-        rec = trows[i - 1]
-        # reproduce: record the same history again (same seed), alone, and validate it again
-        rows2, bad2, _ = trace_validate(ctx, env={"VERIF_TRACE_ONLY": str(rec["trace"])}, tag="r%d" % i)
-        first = next(k for k, r in enumerate(trows) if r["trace"] == rec["trace"])
-        if (i - first) in bad2 and rows2[i - first - 1].get("conc") == rec.get("conc"):
+    tlines = sorted({l for l, _i in tbad})
+    first_of = {}
+    for k, r in enumerate(trows):
+        first_of.setdefault(r["trace"], k)
+    # classify every failing entry; reproduce the unclassified ones first, and one example per key
+    entries = []
+    for l, i in tbad:
+        rec = trows[l - 1]
+        key = classify_trace_lookup(rec["q"][i - 1]) if i > 0 else None
+        entries.append((key is not None, key, l, i))
+    entries.sort()
+    todo, keys_seen = [], set()
+    for _c, key, l, i in entries:
+        if key is None and len(todo) < 8:
+            todo.append((key, l, i))
+        elif key is not None and key not in keys_seen:
+            keys_seen.add(key)
+            todo.append((key, l, i))
+    reruns = {}
+    for key, l, i in todo:
+        rec = trows[l - 1]
+        tr = rec["trace"]
+        if tr not in reruns:
+            # record the same history again (same seed), alone, and validate it again
+            reruns[tr] = trace_validate(ctx, env={"VERIF_TRACE_ONLY": str(tr)}, tag="r%d" % tr)
+        rows2, bad2, _ = reruns[tr]
+        first = first_of[tr]
+        if (l - first, i) in bad2 and rows2[l - first - 1].get("conc") == rec.get("conc"):
             rec = dict(rec)
             rec["seed"] = ctx.seed
-            rec["history"] = [describe_line(r) for r in trows[first:i - 1]][-40:]
-            ctx.disagreement(classify(rec), rec, "trace %d line %d rejected by TraceClients: %s" % (
-                rec["trace"], i - first, describe_line(rec)))
+            rec["failing_lookup"] = rec["q"][i - 1] if i > 0 else "reply"
+            rec["history"] = [describe_line(r) for r in trows[first:l - 1]][-40:]
+            ctx.disagreement(key, rec, "trace %d line %d rejected by TraceClients (%s): %s" % (
+                tr, l - first, ("lookup %s" % json.dumps(rec["failing_lookup"])[:300]) if i > 0 else "reply", describe_line(rec)))
         else:
-            raise vlib.Inconclusive("rejected trace line %d did not reproduce" % i)
+            raise vlib.Inconclusive("rejected trace line %d did not reproduce" % l)
 
     sample_chunk = chunks[len(chunks) // 2]
     samples = [
@@ -423,7 +575,10 @@ def run(ctx):
         "rule": "one evaluation = one lookup (Find / FindByName / RangeByName / effective settings) compared with the spec; "
                 "distinct_nontrivial = distinct labelled edges (state, operation, arguments) replayed that change the registry "
                 "or are refused because of a name/identifier clash (refusals for an unknown name are trivial)",
-        "trace_histories": ntraces, "trace_lines": len(trows), "trace_lines_rejected": len(tbad),
+        "trace_histories": ntraces, "trace_lines": len(trows), "trace_lines_rejected": len(tlines),
+        "trace_lookups_rejected": len(tbad),
+        "soft_lookup_disagreements": soft_counts, "probe_segments": len(probe_chunks), "probe_disagreements": probe_hits,
+        "mainstream_flags": mainstream_flags(),
         "trace_lines_skipped": tskipped,
         "truncated_by_known_finding": truncated,
         "coverage_actions_cov_cfg": taken,
@@ -463,11 +618,13 @@ def replay(ctx, path):
         c = {"t": "c", "u": ck["u"], "id": 0, "variant": ck["variant"], "start": g.index[tuple(ck["start"])],
              "steps": [e[:6] + [g.index[tuple(e[6])]] for e in ck["steps"]]}
         bads, summ = run_replay(ctx, [g], [c], "replay")
-        print(json.dumps({"steps": rec.get("history"), "expected": rec.get("want"),
+        if rec.get("t") == "soft":      # a lookup under another spelling, in the state just built
+            bads = [x for x in summ["_soft"] if x["alt"] == rec["alt"] and x["call"] == rec["call"]]
+        print(json.dumps({"steps": rec.get("history") or rec.get("call"), "expected": rec.get("want"),
                           "observed": bads[0] if bads else "agrees with the spec"}, indent=1, default=str)[:6000])
         return 1 if bads else 0
     rows, bad, _ = trace_validate(ctx, env={"VERIF_TRACE_ONLY": str(rec["trace"])}, tag="replay")
-    hit = [rows[i - 1] for i in bad]
+    hit = [rows[l - 1] for l in sorted({l for l, _i in bad})]
     print(json.dumps({"expected": "every line accepted by TraceClients.tla",
                       "observed": [describe_line(r) for r in hit] or "accepted"}, indent=1))
     return 1 if hit else 0
